@@ -102,11 +102,15 @@ def build(env):
 
 
 class Clock:
+    """patched time(): T0 + ticks / unit seconds.  unit is a power of two (1, 8, 64, 1024): every instant is a dyadic
+    rational exactly representable as a float, so comparisons at the boundary of the cool-down are exact."""
+
     def __init__(self):
         self.t = 0
+        self.unit = 1
 
     def __call__(self):
-        return T0 + self.t
+        return T0 + self.t / self.unit
 
 
 CLOCK = Clock()
@@ -139,18 +143,126 @@ def fail_safe_factory(cfg):
     def mk():
         fs = eval(code, ns)
         fs.handle_on((StubConnectionError, socket.gaierror))       # as RequestsHook / AioHttpHook / TornadoHook do
-        CLOCK.t = 0
+        CLOCK.unit = int(cfg.get("unit", 1))
+        CLOCK.t = int(cfg.get("phase", 0))         # the history starts at T0 + phase/unit (a fractional instant)
         return fs
     return mk
 
 
+# --- the header containers the hooks hand to FailSafe.validate_headers (the HTTP libraries are not installed here):
+#     requests: requests.structures.CaseInsensitiveDict, aiohttp: multidict.CIMultiDictProxy, tornado: httputil.HTTPHeaders
+from collections.abc import Mapping, MutableMapping
+
+
+class CIDictRequests(MutableMapping):
+    """semantics of requests.structures.CaseInsensitiveDict: lookups ignore case, iteration yields the names as set"""
+
+    def __init__(self, items=()):
+        self._store = {}
+        for k, v in items:
+            self[k] = v
+
+    def __setitem__(self, k, v):
+        self._store[k.lower()] = (k, v)
+
+    def __getitem__(self, k):
+        return self._store[k.lower()][1]
+
+    def __delitem__(self, k):
+        del self._store[k.lower()]
+
+    def __iter__(self):
+        return (k for k, _ in self._store.values())
+
+    def __len__(self):
+        return len(self._store)
+
+
+class CIMultiDictAiohttp(Mapping):
+    """semantics of multidict.CIMultiDictProxy: read-only multi-valued mapping, case-insensitive lookup (first value),
+    `in` ignores case, iteration yields the names as received"""
+
+    def __init__(self, items=()):
+        self._items = [(k, v) for k, v in items]
+
+    def __getitem__(self, k):
+        for n, v in self._items:
+            if n.lower() == k.lower():
+                return v
+        raise KeyError(k)
+
+    def __contains__(self, k):
+        return isinstance(k, str) and any(n.lower() == k.lower() for n, _ in self._items)
+
+    def __iter__(self):
+        return (n for n, _ in self._items)
+
+    def __len__(self):
+        return len(self._items)
+
+    def getall(self, k):
+        return [v for n, v in self._items if n.lower() == k.lower()]
+
+
+class HTTPHeadersTornado(MutableMapping):
+    """semantics of tornado.httputil.HTTPHeaders: names are normalised to Http-Header-Case on every access"""
+
+    @staticmethod
+    def _norm(k):
+        return "-".join(w.capitalize() for w in k.split("-"))
+
+    def __init__(self, items=()):
+        self._d = {}
+        for k, v in items:
+            self[k] = v
+
+    def __setitem__(self, k, v):
+        self._d[self._norm(k)] = v
+
+    def __getitem__(self, k):
+        return self._d[self._norm(k)]
+
+    def __delitem__(self, k):
+        del self._d[self._norm(k)]
+
+    def __iter__(self):
+        return iter(self._d)
+
+    def __len__(self):
+        return len(self._d)
+
+
+_CONTAINERS = {"dict": lambda items: dict(items), "requests": CIDictRequests, "aiohttp": CIMultiDictAiohttp,
+               "tornado": HTTPHeadersTornado}
+
+
+def _response_headers(container, error_name=None, code="2"):
+    """headers of a response that came back through the gateway, in the container a hook would pass"""
+    items = [("Content-Type", "application/json"), ("x-lunar-sequence-id", "abc"), ("Date", "Mon, 28 Sep 2026 00:00:00 GMT")]
+    if error_name:
+        items.insert(1, (error_name, code))
+    return _CONTAINERS[container](items)
+
+
 def _raise_gw(fs, kind):
+    """every way a gateway-side failure reaches FailSafe: exceptions of the types the hooks register with handle_on, and error
+    *responses* (header x-lunar-error) through validate_headers.  kind: "conn" | "gai" | "proxy[/container/header-name/code]" """
     if kind == "conn":
         raise StubConnectionError("connection refused")
     if kind == "gai":
         raise socket.gaierror(-2, "Name or service not known")
-    fs.validate_headers({"x-lunar-error": "2"})     # real path: raises ProxyErrorException
-    raise RuntimeError("validate_headers did not raise")
+    parts = kind.split("/")
+    container = parts[1] if len(parts) > 1 else "requests"
+    name = parts[2] if len(parts) > 2 else "x-lunar-error"
+    code = parts[3] if len(parts) > 3 else "2"
+    # as the hooks do after the gateway answered; when it does not raise the hook hands the response to the application
+    fs.validate_headers(_response_headers(container, name, code))
+
+
+def _gw_ok(fs, kind):
+    """a good response through the gateway: the hooks validate its headers too"""
+    parts = kind.split("/") if kind else []
+    fs.validate_headers(_response_headers(parts[1] if len(parts) > 1 else "requests"))
 
 
 def _app_exc(kind):
@@ -182,6 +294,8 @@ def step(fs, e):
                 if go and out != "skip":
                     if out == "gwerr":
                         _raise_gw(fs, kind)
+                    elif out == "ok":
+                        _gw_ok(fs, kind)
                     elif out == "appexc":
                         thrown = _app_exc(kind)
                         raise thrown
@@ -195,10 +309,12 @@ def step(fs, e):
 
 
 def reset_rec(cfg):
-    # the configuration the property is judged against: what the operator configured (or the documented defaults)
+    # the configuration the property is judged against: what the operator configured (or the documented defaults),
+    # the cool-down expressed in clock ticks (unit ticks per second)
     n, c = (5, 10) if cfg.get("default") else (cfg["N"], cfg["C"])
-    return {"ev": "reset", "N": n, "C": c, "d": 0, "read": False, "out": "", "kind": "", "ans": True, "raised": "none",
-            "default": bool(cfg.get("default"))}
+    unit = int(cfg.get("unit", 1))
+    return {"ev": "reset", "N": n, "C": c * unit, "d": 0, "read": False, "out": "", "kind": "", "ans": True, "raised": "none",
+            "default": bool(cfg.get("default")), "unit": unit, "phase": int(cfg.get("phase", 0)), "Csec": c}
 
 
 class Out:
